@@ -21,12 +21,14 @@ else
 fi
 git -C /repo worktree remove --force "$W"; rm -rf "$W"
 cat "$R"
-if ! git -C /repo diff --quiet; then echo "/repo is dirty, not applying"; exit 3; fi
-git -C /repo apply "$DST/patch.diff" || exit 3
+# run the check(s) against a scratch worktree carrying the change (DAGRT_REPO), so that /repo itself stays
+# untouched while background sweeps are using it; equivalent to `git -C /repo apply` + run + `checkout -- .`
+M=$(mktemp -d /tmp/se-XXXXXX)
+git -C /repo worktree add --detach -q "$M" HEAD >/dev/null 2>&1
+git -C "$M" apply "$DST/patch.diff" || { git -C /repo worktree remove --force "$M"; exit 3; }
 for P in "$@"; do
-  OUT=$(cd /verif && ./check "$P" 2>&1); RC=$?
+  OUT=$(cd /verif && DAGRT_REPO="$M" ./check "$P" 2>&1); RC=$?
   echo "check $P quick on seeded tree: exit $RC" | tee -a "$R"
   echo "$OUT" | grep -E "mechanism=|INCONCLUSIVE" | cut -c1-240 | head -4 | tee -a "$R"
 done
-git -C /repo checkout -- .
-git -C /repo status --short | head -3
+git -C /repo worktree remove --force "$M"; rm -rf "$M"
